@@ -270,7 +270,9 @@ def task_streams(args):
     nd = 0
     classes = set()
     for names in lst:
-        a, b, c = check_stream(names, level, state)
+        # the reference outcome is stated for Established; in OpenConfirm the same frames are FSM events
+        # (UPDATE -> NOTIFICATION 5), so only the differential half applies there
+        a, b, c = check_stream(names, level, state, with_ref=(state == 'ESTABLISHED'))
         v += a
         nd += b
         classes.add((classify(names), c))
